@@ -101,6 +101,8 @@ def make_inputs(tier):
         7: ("blocks", (120, [(0, b"xx abc xx zz"), (100, b"zzzz abc hello")])),
         8: ("blocks", (40100, [(0, rd("tiny")), (40000, b"tail abc"), (40050, b"zz")])),
         9: ("buf", rd(elf)[:64] + b"abc"),
+        10: ("fill", (b"q", 1100000)),                       # > YR_MAX_STRING_MATCHES occurrences of "qq"
+        11: ("buf", b"xx qq yy qqq f03zzyx zz qq"),
     }
     return inputs
 
@@ -136,10 +138,40 @@ def val_m(ty, v):
     return "i%d" % v if ty == "i" else "s" + hx(v)
 
 
-def prologue(with_time):
-    ids = [1, 2] + ([3] if with_time else [])
+HOT = b"qq"
+
+
+def many_rules(nrules, per, hot):
+    """nrules x per strings (global string index = rule * per + position, declaration order); the string with
+    global index [hot] is the two-byte pattern that a buffer of 1.1 million 'q' matches more than
+    YR_MAX_STRING_MATCHES times; all others are distinct fillers"""
+    out = []
+    for r in range(nrules):
+        strs = []
+        for j in range(per):
+            g = r * per + j
+            strs.append('$s%d = "%s"' % (j, HOT.decode() if g == hot else "f%02dzzyx" % g))
+        out.append("rule m%d { strings: %s condition: any of them }" % (r, " ".join(strs)))
+    return "\n".join(out) + "\n"
+
+
+def rules_text(rs):
+    """rs: False = RULES, True = RULES + external named like a module, ("many", nrules, per, hot) = many-strings family"""
+    if rs is True:
+        return RULES_TIME
+    if rs is False:
+        return RULES
+    return many_rules(rs[1], rs[2], rs[3])
+
+
+def family(rs):
+    return "std" if rs in (True, False) else rs
+
+
+def prologue(rs):
+    ids = [1, 2] + ([3] if rs is True else [])
     return (["newcompiler", "strings 1"] + ["def%s %s %s" % (EXT[i][1], EXT[i][0], val_h(EXT[i][1], EXT[i][2])) for i in ids] +
-            ["add " + hx((RULES_TIME if with_time else RULES).encode()), "getrules"])
+            ["add " + hx(rules_text(rs).encode()), "getrules"])
 
 
 EPILOGUE = ["destroyrules", "destroycompiler"]
@@ -310,6 +342,17 @@ def run(chk):
            for i, sc in ((6, []), (6, []), (4, []), (6, [(0, "a")]), (4, []))]
     ops.append(dict(kind="destroy", m="destroy", h=["sdestroy"]))
     hists.append(("toomany0", ops, False))
+    # strings_temp_disabled must be cleared for EVERY string: a string with a high global index (beyond the first
+    # byte / the first 64-bit word / the first num_rules bits of the bitmap) hits YR_MAX_STRING_MATCHES with the
+    # callback continuing, then the same scanner scans a small buffer that contains it
+    many = [("many", 7, 10, 69), ("many", 7, 10, 20), ("many", 2, 6, 9)]
+    if tier != "quick":
+        many += [("many", 1, 70, 69), ("many", 1, 70, 64), ("many", 7, 10, 63), ("many", 7, 10, 64), ("many", 7, 10, 16),
+                 ("many", 7, 10, 8), ("many", 2, 6, 8), ("many", 2, 6, 11), ("many", 9, 8, 71), ("many", 1, 130, 129)]
+    for j, rs in enumerate(many):
+        ops = [sc(11), sc(10), sc(11), dict(kind="scan", inp=10, script=[(0, "a")], plan=[], m="scan:10:0=a:-", h=scan_lines(inputs[10], [(0, "a")], [])),
+               sc(11), sc(10), sc(5), sc(11), dict(kind="destroy", m="destroy", h=["sdestroy"])]
+        hists.append(("many%d_%dx%d_hot%d" % (j, rs[1], rs[2], rs[3]), ops, rs))
     # external variable named like a module: scan twice
     for j in range(2):
         r = chk.rng.fork()
@@ -317,8 +360,8 @@ def run(chk):
         ops.append(dict(kind="destroy", m="destroy", h=["sdestroy"]))
         hists.append(("modname%d" % j, ops, True))
 
-    def hist_case(ops, with_time):
-        lines = prologue(with_time) + ["scanner 0", "hcb", "ctx"]
+    def hist_case(ops, rs):
+        lines = prologue(rs) + ["scanner 0", "hcb", "ctx"]
         for o in ops:
             lines += o["h"]
             if o["kind"] != "destroy":
@@ -329,15 +372,15 @@ def run(chk):
     out, err = vlib.run_cases(h, hcases, timeout=1500)
 
     # ---- model, with its oracle measured on fresh scanners (rounds: the model asks, the implementation answers)
-    table = {}        # key -> natural string
+    tables = {}       # rule-set family -> {key -> natural string}
     dirty_keys = set()
 
     def model_lines():
         ls = []
         for hid, ops, wt in hists:
-            objs = " ".join("%d=%s" % (i, val_m(EXT[i][1], EXT[i][2])) for i in ([1, 2, 3] if wt else [1, 2]))
-            ls.append("c10 mod %s | obj %s | in %s | or %s | ops %s" % ("3" if wt else "", objs, in_tokens,
-                      " ".join("%s=%s" % kv for kv in table.items()), " ".join(o["m"] for o in ops)))
+            objs = " ".join("%d=%s" % (i, val_m(EXT[i][1], EXT[i][2])) for i in ([1, 2, 3] if wt is True else [1, 2]))
+            ls.append("c10 mod %s | obj %s | in %s | or %s | ops %s" % ("3" if wt is True else "", objs, in_tokens,
+                      " ".join("%s=%s" % kv for kv in tables.setdefault(family(wt), {}).items()), " ".join(o["m"] for o in ops)))
         return ls
 
     KEY = re.compile(r"f(\d+)\.t(\d+)\.i(\d+)\.e(-|\d+)\.o(.*)\.r(.*)$")
@@ -345,20 +388,20 @@ def run(chk):
     for rnd in range(14):
         mres, _ = vlib.run_lines(model, model_lines())
         need = []
-        for l in mres:
+        for (hid, ops, wt), l in zip(hists, mres):
             m = re.search(r"need (\S+)", l)
-            if m and m.group(1) not in table and m.group(1) not in need:
-                need.append(m.group(1))
+            fam = family(wt)
+            if m and m.group(1) not in tables[fam] and (fam, m.group(1)) not in need:
+                need.append((fam, m.group(1)))
         if not need:
             break
         qcases = []
-        for qi, key in enumerate(need):
+        for qi, (fam, key) in enumerate(need):
             m = KEY.match(key)
             flags, tmo, iid, ep, objs, resid = m.groups()
             if resid != "mudgn":
                 dirty_keys.add(key)       # data of an abandoned scan lingers: no fresh scanner can show this; answer as if clean
-            wt = any(kv.startswith("3:") for kv in objs.split(",") if kv) or False
-            lines = prologue(True) + ["scanner 1", "sflags %s" % flags, "stimeoutns %s" % tmo]
+            lines = prologue(True if fam == "std" else fam) + ["scanner 1", "sflags %s" % flags, "stimeoutns %s" % tmo]
             have = set()
             for kv in objs.split(","):
                 if kv:
@@ -367,9 +410,10 @@ def run(chk):
                     name, ty, _ = EXT[int(k)]
                     lines.append("sdef%s %s %s" % ("i" if v[0] == "i" else "s", name, v[1:] if v[0] == "i" else (v[1:] or "-")))
             lines += ["setep %s" % ep] + scan_lines(inputs[int(iid)], [], []) + ["ctx", "sdestroy"] + EPILOGUE
-            qcases.append(("q%d" % qi, lines, key, 3 not in have))
+            qcases.append(("q%d" % qi, lines, (fam, key), fam == "std" and 3 not in have))
         qout, _ = vlib.run_cases(h, [(a, b) for a, b, _, _ in qcases], timeout=1500)
-        for qid, lines, key, notime in qcases:
+        for qid, lines, (fam, key), notime in qcases:
+            table = tables[fam]
             res = qout.get(qid, [])
             sl = [l for l in res if l.startswith("scan msgs=")]
             cl = [l for l in res if l.startswith("ctx ")]
@@ -384,7 +428,7 @@ def run(chk):
             c = parse_ctx(cl[0])
             fib = c["fibers"].split("/")
             table[key] = "%s:%d:%d:%d" % (intern.msgs(msgs), rc, 0 if c["fsize"] == "-" else 1, int(fib[1]) + int(c["positions"]))
-    chk.note(oracle_entries=len(table), oracle_rounds=rnd + 1)
+    chk.note(oracle_entries=sum(len(t) for t in tables.values()), oracle_rounds=rnd + 1)
 
     # ---- compare model and implementation, operation by operation
     agree = 0
@@ -396,9 +440,9 @@ def run(chk):
         res = [l for l in out.get(hid, []) if l.startswith(("scan msgs=", "scan skipped", "ctx ", "sdef", "crash"))]
         toks = ml.split(" ; ")
         replay = {"history": hid, "ops": [o["m"] for o in ops], "harness_lines": dict(hcases)[hid], "impl": out.get(hid, [])[-40:],
-                  "model": toks, "rules": RULES_TIME if wt else RULES,
+                  "model": toks, "rules": rules_text(wt),
                   "how": "feed 'case x' + harness_lines + 'endcase' to the h_hist binary (lib/build.py harness('h_hist')); "
-                         "inputs: 1 tests/data/tiny, 2 tiny-idata-*, 3 elf32_*, 4 text, 5 empty, 6 'a'*1000100, 7/8 block lists"}
+                         "inputs: 1 tests/data/tiny, 2 tiny-idata-*, 3 elf32_*, 4 text, 5 empty, 6 'a'*1000100, 7/8 block lists, 10 'q'*1100000, 11 small text with qq"}
         if len(toks) != len(ops) or any(t.startswith(("need", "exception", "unknown")) for t in toks):
             chk.violation("model-runner", "model runner failed on %s: %s" % (hid, ml[-300:]), replay, found_input=False)
             continue
@@ -412,10 +456,10 @@ def run(chk):
             ms = ctx_canon_model(mstate)
             if o["kind"] in ("scan", "resume"):
                 if pos >= len(res) or res[pos].startswith("crash"):
-                    key = "modname-crash" if wt else "crash"
+                    key = "modname-crash" if wt is True else "crash"
                     chk.violation(key, "%s: the implementation crashes at operation %d (%s): %s%s" % (
                         hid, oi, o["m"], res[pos] if pos < len(res) else "no output",
-                        "; an external variable named like a module (time) was removed from objects_table by the previous scan, as the model of the code predicts (objs=%s)" % ms["objs"] if wt else ""), replay)
+                        "; an external variable named like a module (time) was removed from objects_table by the previous scan, as the model of the code predicts (objs=%s)" % ms["objs"] if wt is True else ""), replay)
                     dead = True
                     break
                 if res[pos] == "scan skipped":      # a resumption of a scan that had already ended (timed out): nothing to do
@@ -553,7 +597,9 @@ def run(chk):
              fresh_scanner_same=fresh_same, histories=len(hists), asan_histories_agreeing_with_model=leak_ok,
              rule="random histories of 3-8 operations on one scanner over a rule set exposing entrypoint, filesize, pe/elf/math values, "
                   "string matches, console.log, externals, a private rule; inputs PE (tiny, tiny-idata), ELF, text, empty, 1000100 x 'a' "
-                  "(too many matches), two block lists; callback abort/error scripts, 1 ns time-outs, not-ready blocks; hazard "
+                  "(too many matches), two block lists; an aimed family of many-string rule sets (7x10, 2x6, in thorough also 1x70, 9x8, "
+                  "1x130 strings) in which the string with a chosen high global index (69, 20, 9, ...) reaches YR_MAX_STRING_MATCHES on "
+                  "1.1 MB of 'q' and a small buffer containing it is scanned before and after; callback abort/error scripts, 1 ns time-outs, not-ready blocks; hazard "
                   "histories (abandoned suspension, destroy while suspended, external named like a module). distinct = (input, rc, "
                   "scripted, suspended, stale entry point present) and setting kinds")
     for hid, ops, wt in hists[:3]:
